@@ -71,6 +71,33 @@ def family(tier):
                          sims=[T("A"), T("Tr"), E("M", **{"async": acts})],
                          conns=[dict(src="A", dst="M", **{"async": True}),
                                 dict(src="Tr", dst="M", sattr="po", dattr="ti")])))
+    # the async connection's data pair is time-shifted (the agent reads old data but must still
+    # not run ahead of A), alone or declared by a separate earlier connect() call
+    for sh in (1, 2):
+        for sub in ((0, 1, 2, 3), (1,), (0, 2)):
+            acts = {str(k): [("set", "A.e", "mi"), ("gate", 0)] for k in sub}
+            tag = "".join(map(str, sub))
+            out.append((f"a1_shift{sh}_{tag}",
+                        dict(until=4, sims=[T("A"), T("M", 1, **{"async": acts})],
+                             conns=[dict(aconn("A", "M"), shift=sh, init=True)])))
+            out.append((f"a1_shift{sh}_first_{tag}",
+                        dict(until=4, sims=[T("A"), T("M", 1, **{"async": acts})],
+                             conns=[dict(aconn("A", "M", flag=False), shift=sh, init=True),
+                                    dict(src="A", dst="M", **{"async": True})])))
+            # ... and an ordinary time-shifted feedback connection from the agent back to A
+            # (set_data writes another attribute: one slot cannot hold both values)
+            acts = {str(k): [("set", "A.e", "sd"), ("gate", 0)] for k in sub}
+            out.append((f"a1_feedback{sh}_{tag}",
+                        dict(until=4, sims=[T("A"), T("M", 1, **{"async": acts})],
+                             conns=[aconn("A", "M"),
+                                    dict(src="M", dst="A", sattr="po", dattr="mi", shift=sh, init=True)])))
+    # ONE set_data call with two destinations, one of them without async_requests connection
+    for dsts in (["A.e", "X.e"], ["X.e", "A.e"], ["A.e", "B.e"]):
+        out.append((f"set2_{'_'.join(d[0] for d in dsts)}", dict(
+            until=3, sims=[T("A"), T("B"), T("X"),
+                           T("M", 1, **{"async": {"0": [("set2", dsts, "mi")],
+                                                  "1": [("set", "A.e", "mi")]}})],
+            conns=[aconn("A", "M"), aconn("B", "M")])))
     # negative cases
     out.append(("neg_no_flag", dict(
         until=2, sims=[T("A"), T("M", 1, **{"async": {"0": [("set", "A.e", "mi")],
